@@ -18,8 +18,6 @@ class PA:
     def __init__(self, pieces, ty):
         self.pieces = sorted(pieces)
         self.ty = ty
-        if len(self.pieces) > MAX_PIECES:
-            raise TooManyPieces()
 
     @staticmethod
     def ident(domain, ty):
@@ -29,10 +27,21 @@ class PA:
         return ivl.norm([(a, b) for a, b, _ in self.pieces])
 
     def restrict(self, iv):
+        """restriction to an interval set; O((|iv| + hits) log n) via bisection on the sorted, disjoint pieces"""
+        import bisect
+        his = getattr(self, '_his', None)
+        if his is None:
+            his = self._his = [p[1] for p in self.pieces]
         out = []
-        for a, b, off in self.pieces:
-            for c, d in ivl.intersect([(a, b)], iv):
-                out.append((c, d, off))
+        n = len(self.pieces)
+        for c, d in iv:
+            k = bisect.bisect_left(his, c)
+            while k < n and self.pieces[k][0] <= d:
+                a, b, off = self.pieces[k]
+                x, y = max(a, c), min(b, d)
+                if x <= y:
+                    out.append((x, y, off))
+                k += 1
         return PA(out, self.ty)
 
     def wrap_to(self, ty, pb=64):
@@ -43,6 +52,7 @@ class PA:
         for a, b, off in self.pieces:
             # values a+off .. b+off ; split where (v - lo) // m changes
             x = a
+            n0 = len(out)
             while x <= b:
                 v = x + off
                 k = (v - lo) // m
@@ -50,8 +60,8 @@ class PA:
                 xe = min(b, lo + (k + 1) * m - 1 - off)
                 out.append((x, xe, off - k * m))
                 x = xe + 1
-                if len(out) > MAX_PIECES:
-                    raise TooManyPieces()
+                if len(out) - n0 > MAX_PIECES:
+                    raise TooManyPieces()      # one affine piece wraps more than MAX_PIECES times: a truncating cast
         return PA(out, ty)
 
     def add_const(self, c, ty=None):
@@ -137,6 +147,8 @@ def eval_affine(t, var, var_pa, F, pb=64, panics=None):
         return inner.wrap_to(to, pb)
     if k == 'call' and t[1] in ('int::wrapping_sub', 'int::wrapping_add'):
         a, b = t[2]
+        if t[1].endswith('add') and F.try_fold(b) is None and F.try_fold(a) is not None:
+            a, b = b, a
         cb = F.try_fold(b)
         if cb is None or cb[0] != 'int':
             raise NotAffine('non-constant right operand of ' + t[1])
@@ -145,6 +157,8 @@ def eval_affine(t, var, var_pa, F, pb=64, panics=None):
         return inner.add_const(c).wrap_to(inner.ty, pb)
     if k == 'bin' and t[1] in ('Add', 'Sub', 'Add_checked', 'Sub_checked'):
         a, b = t[2], t[3]
+        if t[1].startswith('Add') and F.try_fold(b) is None and F.try_fold(a) is not None:
+            a, b = b, a          # addition commutes
         cb = F.try_fold(b)
         if cb is None or cb[0] != 'int':
             raise NotAffine('non-constant right operand of ' + t[1])
